@@ -87,15 +87,29 @@ def build_wsgi_app(hook=lambda: None):
     return app, router
 
 
-def build_asgi_app(gate):
+def build_asgi_app(gate, independent=True):
     import falcon
     import falcon.asgi
+
+    class Trace:
+        """Outer component: every request must come back through it exactly once."""
+        def __init__(self, name):
+            self.name = name
+
+        async def process_request(self, req, resp):
+            await gate()
+
+        async def process_response(self, req, resp, resource, ok):
+            resp.append_header('X-Trace', '%s:%s' % (self.name, req.get_header('X-Tag')))
+            await gate()
 
     class Ctx:
         async def process_request(self, req, resp):
             req.context.tag = req.get_header('X-Tag')
             req.params['mw'] = req.get_header('X-Tag')
             await gate()
+            if req.get_header('X-Reject'):
+                raise falcon.HTTPForbidden(description=req.get_header('X-Tag'))
 
         async def process_resource(self, req, resp, resource, params):
             params['tenant'] = req.get_header('X-Tag')
@@ -132,7 +146,8 @@ def build_asgi_app(gate):
             await gate()
             resp.media = {'route': 'b', 'y': y, 'tag': req.context.tag, 'tenant': tenant, 'mw': req.get_param('mw')}
 
-    app = falcon.asgi.App(middleware=[Ctx(), Pause()])
+    app = falcon.asgi.App(middleware=[Trace('outer'), Ctx(), Pause(), Trace('inner')],
+                          independent_middleware=independent)
     app.add_route('/a/{x:int}', Item())
     app.add_route('/b/{y:int}', Other())
     return app
@@ -159,12 +174,13 @@ def request_pool():
             b'user=bob&pin=2222', chunks=[4]),                                                # same query string as #10
         Req('POST', b'/a/5', b'', [('X-Tag', 't13'), ('Content-Type', 'application/json')], b'{"k": \xff}', chunks=[3]),
         Req('POST', b'/a/5', b'', [('X-Tag', 't14'), ('Content-Type', 'application/json')], b'{"k": [1, 2,}', chunks=[6]),
+        Req('GET', b'/a/3', b'q=one', [('X-Tag', 't15'), ('X-Reject', '1')]),                # refused by a middleware
     ]
 
 
 NAMES = ['GET /a/3', 'GET /b/7', 'POST /a/5', 'GET /b/13 (400)', 'GET /a/nope (404)', 'PUT /b/2 (405)',
          'GET /a/3 #2', 'POST /a/5 #2', 'GET /a/3?q=one #3', 'GET /b/7 #2', 'POST form alice', 'POST form bob',
-         'POST bad json #1', 'POST bad json #2']
+         'POST bad json #1', 'POST bad json #2', 'GET /a/3 refused (403)']
 
 
 def proj(res):
@@ -241,7 +257,7 @@ def events_to_trace(s, n, ok):
 # tasks
 # ------------------------------------------------------------------------------------------------
 
-def run_tasks(reqs, sched):
+def run_tasks(reqs, sched, independent=True):
     """Step real ASGI request tasks in the order given by `sched` (1-based task ids)."""
     import asyncio
     from engine.drivers import scope, body_events, Result
@@ -267,7 +283,7 @@ def run_tasks(reqs, sched):
             waiting[tid] = fut
             await fut
 
-        app = build_asgi_app(gate)
+        app = build_asgi_app(gate, independent)
         results = [Result() for _ in reqs]
 
         async def one(tid, rq):
@@ -338,10 +354,10 @@ def run_tasks(reqs, sched):
     return run_async(main())
 
 
-def serial_tasks(reqs):
+def serial_tasks(reqs, independent=True):
     out = []
     for r in reqs:
-        res, _ = run_tasks([r], [])
+        res, _ = run_tasks([r], [], independent)
         out.append(res[0])
     return out
 
@@ -473,35 +489,33 @@ def run(ctx):
     rs = ctx.tlc('MC_IsolationSched', 'MC_IsolationSched.cfg', workers=4, timeout=300, count=False)
     tscheds = sorted({tuple(b['sched']) for b in rs.json})
     ctx.extra['tlc_task_schedules'] = len(tscheds)
-    serial_t = serial_tasks(pool)
+    serial_t = {True: serial_tasks(pool, True), False: serial_tasks(pool, False)}
     step = max(1, len(tscheds) // ctx.pick(150, 924))
-    combos = pairs + [(3, 0), (7, 2), (11, 10), (9, 1), (13, 12), (12, 2)]
+    combos = pairs + [(3, 0), (7, 2), (11, 10), (9, 1), (13, 12), (12, 2), (0, 14), (14, 0), (14, 2), (1, 14)]
     n = 0
+
+    def check_tasks(idx, sc, key, nontrivial):
+        for indep in (True, False):
+            out, steps = run_tasks([pool[i] for i in idx], list(sc), indep)
+            case = {'kind': 'tasks', 'requests': [names[i] for i in idx], 'sched': list(sc),
+                    'independent_middleware': indep}
+            ctx.case(case, nontrivial=nontrivial, key=(key, indep, idx, tuple(sc)))
+            for j, i in enumerate(idx):
+                if out[j] != serial_t[indep][i]:
+                    ctx.violation('P:serial-answer', dict(case, got=out[j], serial=serial_t[indep][i]),
+                                  'task %d (%s) got a response that differs from its serial response' % (j, names[i]))
+                    break
+
     for k, sc in enumerate(tscheds[::step]):
         idx = combos[k % len(combos)]
-        n += 1
-        out, steps = run_tasks([pool[i] for i in idx], list(sc))
-        switches = sum(1 for a, b in zip(sc, sc[1:]) if a != b)
-        case = {'kind': 'tasks', 'requests': [names[i] for i in idx], 'sched': list(sc)}
-        ctx.case(case, nontrivial=switches >= 2, key=('A', idx, sc))
-        for j, i in enumerate(idx):
-            if out[j] != serial_t[i]:
-                ctx.violation('P:serial-answer', dict(case, got=out[j], serial=serial_t[i]),
-                              'task %d (%s) got a response that differs from its serial response' % (j, names[i]))
-                break
-    # three tasks, seeded random interleavings beyond the exhaustive bound
-    for k in range(ctx.pick(60, 1500)):
-        idx = triples[k % len(triples)]
-        sc = [ctx.rng.randint(1, 3) for _ in range(40)]
-        out, steps = run_tasks([pool[i] for i in idx], sc)
-        case = {'kind': 'tasks', 'requests': [names[i] for i in idx], 'sched': sc}
-        ctx.case(case, nontrivial=True, key=('A3', idx, tuple(sc)))
-        n += 1
-        for j, i in enumerate(idx):
-            if out[j] != serial_t[i]:
-                ctx.violation('P:serial-answer', dict(case, got=out[j], serial=serial_t[i]),
-                              'task %d (%s) got a response that differs from its serial response' % (j, names[i]))
-                break
+        n += 2
+        check_tasks(idx, sc, 'A', sum(1 for a, b in zip(sc, sc[1:]) if a != b) >= 2)
+    # seeded random interleavings beyond the exhaustive bound: long schedules for pairs, and three tasks
+    for k in range(ctx.pick(120, 3000)):
+        idx = combos[k % len(combos)] if k % 2 else (triples + [(0, 14, 2), (14, 1, 0)])[(k // 2) % (len(triples) + 2)]
+        sc = [ctx.rng.randint(1, len(idx)) for _ in range(60)]
+        n += 2
+        check_tasks(idx, sc, 'A3', True)
     ctx.traces_validated += n
     ctx.progress('leg A tasks done: %d interleavings' % n)
 
@@ -522,8 +536,9 @@ def replay(ctx, case):
         serial = serial_answers(reqs)
         out, s = run_threads(reqs, case.get('choices') or (), case.get('prefer'))
     else:
-        serial = serial_tasks(reqs)
-        out, _ = run_tasks(reqs, case['sched'])
+        indep = case.get('independent_middleware', True)
+        serial = serial_tasks(reqs, indep)
+        out, _ = run_tasks(reqs, case['sched'], indep)
     for i, (o, e) in enumerate(zip(out, serial)):
         print(i, 'SAME' if o == e else 'DIFF', o, e)
         if o != e:
